@@ -4,11 +4,13 @@ package main
 // Sidetree client (level 2), parsed, converted to anchored form and applied.
 
 import (
+	"bufio"
 	"crypto"
 	"crypto/ecdsa"
 	"crypto/ed25519"
 	"encoding/json"
 	"fmt"
+	"math/rand"
 	"os"
 	"reflect"
 	"runtime"
@@ -999,4 +1001,194 @@ func clientReplay(args []string) {
 	col.sum.Extra["states"] = len(cache.m)
 	col.sum.Extra["ukt"], col.sum.Extra["rkt"], col.sum.Extra["h"] = env.ukt, env.rkt, env.h
 	col.finish()
+}
+
+// ---------------------------------------------------------------------------------------------
+// trace driver: random lifecycles on the real builders / parser / applier, logged for ClientTrace.tla
+
+func clientTrace(args []string) {
+	fl := parseFlags(args)
+	seed := int64(fl.int("seed", envInt("VERIF_SEED", 1)))
+	n, maxSteps := fl.int("n", 40), fl.int("steps", 24)
+	r := rand.New(rand.NewSource(seed))
+
+	f, err := os.Create(fl.str("o", "client_trace.ndjson"))
+	if err != nil {
+		fatalf("%v", err)
+	}
+
+	defer f.Close()
+
+	w := bufio.NewWriter(f)
+	defer w.Flush()
+
+	enc := json.NewEncoder(w)
+	kts := []string{"p256", "ed", "k1", "p384", "p521"}
+	events, problems := 0, 0
+
+	ents := func(ids, vers, max int) []CEnt {
+		out := []CEnt{}
+
+		for _, id := range r.Perm(ids) {
+			if len(out) < max && r.Intn(2) == 0 {
+				out = append(out, CEnt{ID: id + 1, Ver: 1 + r.Intn(vers)})
+			}
+		}
+
+		return out
+	}
+
+	ints := func(ids, max int) []int {
+		out := []int{}
+
+		for _, id := range r.Perm(ids) {
+			if len(out) < max && r.Intn(2) == 0 {
+				out = append(out, id+1)
+			}
+		}
+
+		return out
+	}
+
+	randDoc := func() CDoc {
+		for {
+			d := CDoc{Keys: ents(3, 3, 3), Svcs: ents(2, 2, 2), Aka: ints(2, 2)}
+			if len(d.Keys)+len(d.Svcs)+len(d.Aka) > 0 {
+				return d
+			}
+		}
+	}
+
+	randUpd := func() lUpd {
+		for {
+			u := lUpd{AddKeys: ents(3, 3, 2), RemKeys: ints(3, 1), AddSvcs: ents(2, 2, 1), RemSvcs: ints(2, 1), AddAka: ints(2, 1), RemAka: ints(2, 1)}
+
+			// (one URI is not added and removed by the same update: the two patches would contradict each other)
+			if len(u.AddAka) > 0 && len(u.RemAka) > 0 && u.AddAka[0] == u.RemAka[0] {
+				u.RemAka = []int{}
+			}
+
+			if len(u.AddKeys)+len(u.RemKeys)+len(u.AddSvcs)+len(u.RemSvcs)+len(u.AddAka)+len(u.RemAka) > 0 {
+				return u
+			}
+		}
+	}
+
+	emptyReq := func() lReq {
+		return lReq{Doc: CDoc{Keys: []CEnt{}, Svcs: []CEnt{}, Aka: []int{}}, Upd: lUpd{AddKeys: []CEnt{}, RemKeys: []int{}, AddSvcs: []CEnt{}, RemSvcs: []int{}, AddAka: []int{}, RemAka: []int{}}}
+	}
+
+	for h := 0; h < n; h++ {
+		env := newLifeEnv(seed+int64(h), kts[h%5], kts[(h+2)%5], []int{256, 512}[h%2])
+		state := &lifeState{rm: &protocol.ResolutionModel{}, did: "", updAlg: "same", recAlg: "same"}
+		phase, nk, upd, rec := "start", 0, 0, 0
+
+		_ = enc.Encode(map[string]interface{}{"event": "Reset"})
+		events++
+
+		for t := 1; t <= maxSteps && phase != "done"; t++ {
+			st := lStep{Win: "none", Alg: "same", Req: emptyReq()}
+			event := ""
+
+			win := func() string {
+				if r.Intn(3) == 0 {
+					return []string{"in", "from_only", "late"}[r.Intn(3)]
+				}
+
+				return "none"
+			}
+
+			switch {
+			case phase == "start" && r.Intn(6) == 0:
+				event = "refuse"
+				st.Op, st.Refused = "create", []string{"equal_commitments", "wrong_algorithm"}[r.Intn(2)]
+			case phase == "start":
+				event, st.Op = "create", "create"
+				st.Nu, st.Nr, st.Ao, st.Ty = nk+1, nk+2, r.Intn(2), r.Intn(2)
+				st.Req.Doc = randDoc()
+			case r.Intn(10) == 0:
+				event = "refuse"
+				st.Op, st.Refused = []string{"update", "recover"}[r.Intn(2)], "reused_key"
+			case r.Intn(12) == 0 || t == maxSteps:
+				event, st.Op = "deactivate", "deactivate"
+				st.Signer = rec
+			case r.Intn(4) == 0:
+				event, st.Op = "recover", "recover"
+				st.Signer, st.Nu, st.Nr, st.Ao, st.Win = rec, nk+1, nk+2, r.Intn(2), win()
+				st.Req.Doc = randDoc()
+			default:
+				event, st.Op = "update", "update"
+				st.Signer, st.Nu, st.Win = upd, nk+1, win()
+				st.Req.Upd = randUpd()
+			}
+
+			if st.Win == "none" && (st.Op == "update" || st.Op == "recover") && st.Refused == "" && r.Intn(4) == 0 {
+				st.Alg = "other"
+			}
+
+			if event == "refuse" {
+				// the request of a refusal is the one the specification uses
+				st.Signer, st.Nu, st.Nr = rec, nk+1, nk+2
+				if st.Op == "update" {
+					st.Signer = upd
+				}
+
+				st.Req.Doc.Keys = []CEnt{{ID: 1, Ver: 1}}
+				st.Req.Upd.AddKeys = []CEnt{{ID: 3, Ver: 1}}
+			}
+
+			res := env.step(state, &st, t, nil)
+			state = res.next
+
+			bad := ""
+			if len(res.problems) > 0 {
+				bad = res.problems[0].Kind + ": " + res.problems[0].Detail
+				problems++
+			}
+
+			post, extras := env.projectState(state.rm, nk+4)
+			if len(extras) > 0 && bad == "" {
+				bad = fmt.Sprintf("unexpected members %v", extras)
+			}
+
+			post.Doc.Other = nil
+			post.Doc.norm(0)
+			post.Doc.Other = []CVal{}
+
+			// (no JSON null in the log)
+			logged := st.Req
+			logged.Doc.Other = []CVal{}
+
+			for _, l := range []*[]CEnt{&logged.Doc.Keys, &logged.Doc.Svcs, &logged.Upd.AddKeys, &logged.Upd.AddSvcs} {
+				if *l == nil {
+					*l = []CEnt{}
+				}
+			}
+
+			for _, l := range []*[]int{&logged.Doc.Aka, &logged.Upd.RemKeys, &logged.Upd.RemSvcs, &logged.Upd.AddAka, &logged.Upd.RemAka} {
+				if *l == nil {
+					*l = []int{}
+				}
+			}
+
+			ev := map[string]interface{}{"event": event, "op": st.Op, "signer": st.Signer, "nu": st.Nu, "nr": st.Nr, "ao": st.Ao, "win": st.Win, "alg": st.Alg,
+				"ty": st.Ty, "refused": st.Refused, "req": logged, "post": post, "bad": bad, "kt": []string{env.ukt, env.rkt}, "h": env.h}
+			_ = enc.Encode(ev)
+			events++
+
+			// the driver's own bookkeeping of key numbers follows the specification's
+			switch event {
+			case "create":
+				upd, rec, nk, phase = nk+1, nk+2, nk+2, "created"
+			case "update":
+				upd, nk = nk+1, nk+1
+			case "recover":
+				upd, rec, nk, phase = nk+1, nk+2, nk+2, "recovered"
+			case "deactivate":
+				phase = "done"
+			}
+		}
+	}
+
+	writeJSON(os.Stdout, map[string]interface{}{"histories": n, "events": events, "steps_with_problems": problems})
 }
